@@ -1133,6 +1133,10 @@ class SVG:
             for el in self._iter_nested_svgs(svg)
         )
 
+        # pick the id of our viewport clip while the content is still attached to the
+        # document: ids generated for viewports nested in here must be seen as taken
+        clip_id = self._new_id("nested-svg-viewport-%d")
+
         g = etree.Element(f"{{{svgns()}}}g")
         g.extend(svg)
 
@@ -1160,9 +1164,7 @@ class SVG:
         if overflow != "hidden":
             raise NotImplementedError(f"overflow='{overflow}' is not supported")
 
-        clip_path = etree.Element(
-            f"{{{svgns()}}}clipPath", {"id": self._new_id("nested-svg-viewport-%d")}
-        )
+        clip_path = etree.Element(f"{{{svgns()}}}clipPath", {"id": clip_id})
         clip_path.append(to_element(SVGRect(x=x, y=y, width=width, height=height)))
         clipped_g = etree.Element(f"{{{svgns()}}}g")
         clipped_g.attrib["clip-path"] = f"url(#{clip_path.attrib['id']})"
